@@ -231,7 +231,9 @@ def stepEv (w : World) (t : Nat) (ws : List String) : Except String World := do
   | "read" :: h :: obs => do
     let [h] ← nats [h] | throw "bad read"
     let want ← w.read h
-    if want ≠ obs then throw s!"quiescent read of {h} returned {obs}, the model says {want}"
+    -- `_` = not observed (slot count of a bare thread-local read on a worker thread)
+    let same := want.length == obs.length && (want.zip obs).all (fun p => p.2 == "_" || p.1 == p.2)
+    if !same then throw s!"quiescent read of {h} returned {obs}, the model says {want}"
     pure { w with reads := w.reads + 1 }
   | "aread" :: h :: obs => do
     let [h] ← nats [h] | throw "bad aread"
